@@ -340,13 +340,17 @@ def main(argv):
         import tempfile
 
         selftest = {}
+        mine = []
         for sid in sorted(os.listdir(os.path.join(HERE, "seeded"))) if os.path.isdir(os.path.join(HERE, "seeded")) else []:
             try:
                 meta = json.load(open(os.path.join(HERE, "seeded", sid, "meta.json")))
             except Exception:  # noqa: BLE001
                 continue
-            if meta.get("property") != prop:
-                continue
+            if meta.get("property") == prop:
+                mine.append(sid)
+        if len(mine) > 4:  # (bounds the time of the thorough tier: a spread of four of the seeded changes)
+            mine = [mine[0], mine[2], mine[4], mine[-1]]
+        for sid in mine:
             d = tempfile.mkdtemp(prefix="selftest_")
             try:
                 shutil.copytree(os.path.join(REPO, "src"), os.path.join(d, "src"))
